@@ -104,6 +104,43 @@ CLASSES = {
         "attrs": {"kind": STR, "old": STR, "new": STR, "batch_id": ANY},
         "methods": {},
     },
+    # frozen event dataclasses of the run level (built by the runners' _emit_run_start / _emit_run_end, c_runner_events.py)
+    "RunStartEvent": {
+        "module": "hypergraph.events.types", "file": "events/types.py",
+        "attrs": {"run_id": STR, "span_id": STR, "parent_span_id": OPT(STR), "timestamp": ANY, "graph_name": STR, "workflow_id": OPT(STR), "is_map": BOOL, "map_size": OPT(INT)},
+        "methods": {},
+    },
+    "RunEndEvent": {
+        "module": "hypergraph.events.types", "file": "events/types.py",
+        "attrs": {"run_id": STR, "span_id": STR, "parent_span_id": OPT(STR), "timestamp": ANY, "graph_name": STR, "status": ANY, "error": OPT(STR), "duration_ms": ANY},
+        "methods": {},
+    },
+    # frozen event dataclasses of the node level (built by runners/_shared/event_helpers.py, contracts c_event_helpers.py)
+    "NodeStartEvent": {
+        "module": "hypergraph.events.types", "file": "events/types.py",
+        "attrs": {"run_id": STR, "span_id": STR, "parent_span_id": OPT(STR), "timestamp": ANY, "node_name": STR, "graph_name": STR},
+        "methods": {},
+    },
+    "NodeEndEvent": {
+        "module": "hypergraph.events.types", "file": "events/types.py",
+        "attrs": {"run_id": STR, "span_id": STR, "parent_span_id": OPT(STR), "timestamp": ANY, "node_name": STR, "graph_name": STR, "duration_ms": ANY, "cached": BOOL},
+        "methods": {},
+    },
+    "CacheHitEvent": {
+        "module": "hypergraph.events.types", "file": "events/types.py",
+        "attrs": {"run_id": STR, "span_id": STR, "parent_span_id": OPT(STR), "timestamp": ANY, "node_name": STR, "graph_name": STR, "cache_key": STR},
+        "methods": {},
+    },
+    "NodeErrorEvent": {
+        "module": "hypergraph.events.types", "file": "events/types.py",
+        "attrs": {"run_id": STR, "span_id": STR, "parent_span_id": OPT(STR), "timestamp": ANY, "node_name": STR, "graph_name": STR, "error": STR, "error_type": STR},
+        "methods": {},
+    },
+    "RouteDecisionEvent": {
+        "module": "hypergraph.events.types", "file": "events/types.py",
+        "attrs": {"run_id": STR, "span_id": STR, "parent_span_id": OPT(STR), "timestamp": ANY, "node_name": STR, "graph_name": STR, "decision": ANY},
+        "methods": {},
+    },
     "RunResult": {
         "module": "hypergraph.runners._shared.types", "file": "runners/_shared/types.py",
         "attrs": {"values": DICT(STR, ANY), "status": ANY, "error": ANY, "pause": ANY, "run_id": STR},
@@ -180,7 +217,7 @@ CLASSES = {
 # attribute / method access on statically untyped values (e.g. elements of a locally built list): node vocabulary
 ANY_ATTRS = dict(NODE_ATTRS)
 ANY_ATTRS.update({"__cause__": ANY, "partial_state": ANY, "_partial_state": ANY, "pause_info": ANY, "error": ANY, "status": ANY})
-ANY_ATTRS.update({"__name__": STR})  # class / function names in messages
+ANY_ATTRS.update({"__name__": STR, "__module__": STR, "__qualname__": STR})  # class / function names in messages
 ANY_ATTRS.update({"supports_async_nodes": BOOL, "supports_cycles": BOOL, "supports_interrupts": BOOL})  # RunnerCapabilities flags
 ANY_ATTRS.update({"nodes": DICT(STR, DICT(STR, ANY))})  # networkx node table read as a mapping id -> attribute dict (viz helpers)
 ANY_ATTRS.update({"current_span_id": SEQ(ANY)})  # executor slot for the running node's span id (a one-element list)
@@ -240,8 +277,6 @@ OPAQUE = {
     # uuid-based id generation and the frozen event dataclasses built from keyword arguments (assumed contracts A4: total)
     "_generate_run_id": {"raises": [], "returns": STR},
     "_generate_span_id": {"raises": [], "returns": STR},
-    "RunStartEvent": {"raises": [], "returns": ANY},
-    "RunEndEvent": {"raises": [], "returns": ANY},
     # graph/validation.py:_values_equal (assumed contract A4): total (catches ValueError/TypeError itself) and a pure
     # function of its two arguments; NOT assumed reflexive, symmetric or transitive
     "_values_equal": {"raises": [], "returns": BOOL, "pure": True},
@@ -380,6 +415,13 @@ def _lib_time(ex, args, kwargs, s):
     yield s, Val(smt.fresh_v("time"), ANY)
 
 
+def _lib_exc_info(ex, args, kwargs, s):
+    """sys.exc_info(): three opaque values (class, instance, traceback of the exception being handled, or None each);
+    does not raise."""
+    from pyvc.values import TupVal
+    yield s, TupVal([Val(smt.fresh_v("exc_type"), ANY), Val(smt.fresh_v("exc_val"), ANY), Val(smt.fresh_v("exc_tb"), ANY)])
+
+
 def _lib_compare_digest(ex, args, kwargs, s):
     """hmac.compare_digest (assumed contract A4): total, returns a bool."""
     v = BVal(smt.fresh_bool("digest_eq"))
@@ -429,6 +471,7 @@ LIBRARY = {
     "_pickle.loads": _lib_pickle_loads,
     "_pickle.dumps": _lib_pickle_dumps,
     "time.time": _lib_time,
+    "sys.exc_info": _lib_exc_info,
     "warnings.warn": _lib_warn,
     "_warnings.warn": _lib_warn,
     "contracts.specrt.forall_keys": _spec_forall_keys,
